@@ -231,4 +231,56 @@ def _color_ok(word: str, names) -> bool:
     return bool(m) and int(m.group(1)) <= 255
 
 
-RULES = [r14_1, r14_2, r14_3, r14_4]
+def r14_5(ctx):
+    ctx.rule("R14.5", "no max()/min() of a possibly empty filtered sequence in the layout code: a max/min over a generator whose `if` filter may reject every element (and without default=) must be dominated by the matching any(...) test - otherwise rendering/measuring raises ValueError for some option combination")
+    from .. import cfg as cfgmod
+    n = 0
+    for ms in ("table", "_ratio", "columns", "panel", "measure", "padding", "align", "tree", "containers", "rule", "bar", "progress_bar"):
+        m = ctx.repo.mod(ms)
+        seen = set()
+        for f in m.functions.values():
+            if id(f) in seen or m.in_main_guard(f.node):
+                continue
+            seen.add(id(f))
+            g = None
+            for x in walk_local(f.node):
+                if not (isinstance(x, ast.Call) and isinstance(x.func, ast.Name) and x.func.id in ("max", "min") and len(x.args) == 1 and isinstance(x.args[0], ast.GeneratorExp)):
+                    continue
+                ge = x.args[0]
+                if any(k.arg == "default" for k in x.keywords) or not ge.generators[0].ifs:
+                    continue
+                n += 1
+                if g is None:
+                    g = cfgmod.build(f.node)
+                gen = ge.generators[0]
+                cond = gen.ifs[0]
+                # which source sequence does the filter variable range over?
+                guard_seq = None
+                if isinstance(cond, ast.Name) and isinstance(gen.target, ast.Tuple) and isinstance(gen.iter, ast.Call) and norm(gen.iter.func) == "zip":
+                    names = [norm(t) for t in gen.target.elts]
+                    if cond.id in names and names.index(cond.id) < len(gen.iter.args):
+                        guard_seq = norm(gen.iter.args[names.index(cond.id)])
+                st = x
+                while not isinstance(st, ast.stmt):
+                    st = m.parent_of[st]
+                ok = False
+                for nid in g.nodes_of(st):
+                    for t, v in g.branch_facts(nid):
+                        if v is True and guard_seq is not None and norm(t) == f"any({guard_seq})":
+                            ok = True
+                par = m.parent_of.get(x)
+                if isinstance(par, ast.IfExp) and par.body is x:
+                    ok = True
+                ctx.check(ok, f.fq, short(x), f"{m.relpath}:{x.lineno}", f"{x.func.id}() over a filtered sequence is guarded by any({guard_seq})",
+                          f"`{short(x)}` takes the {x.func.id} of a filtered generator without default= and without a dominating `any({guard_seq or '...'})` test: when no element passes the filter (e.g. every column is no_wrap / fixed width) rendering raises ValueError instead of falling back")
+    if n == 0:
+        ctx.ok("rich/table.py", "no filtered max()/min() without default in the layout modules")
+
+
+def r14_6(ctx):
+    from .c13 import r13_2
+    from .common import borrow
+    borrow(ctx, r13_2, "R13.2", "R14.6", " [every string can be measured: the width-table search never indexes outside the table, so printing any text cannot raise IndexError]")
+
+
+RULES = [r14_1, r14_2, r14_3, r14_4, r14_5, r14_6]
